@@ -32,7 +32,9 @@ theorem no_partial_frame (ms : List Bytes) (hm : ∀ m ∈ ms, m.length < 2 ^ 32
 def firedByClose : List String :=
   ["select-case <-s.ctx.Wait()",                    -- channel context, cancelled by channelState.close
    "select-case <-c.writeq.WriteWait(len(b))",      -- write queue closed by conn.close
-   "select-case <-ch.ReceiveWait()",                -- receive queue closed by channelState.close
+   "select-case <-wait",                            -- wait := ch.ReceiveWait(): the receive queue is closed by
+                                                    -- channelState.close, which posts its notification
+                                                    -- (WakeProps.parked_closed_wakes)
    "select-case <-c.closed.Wait()"]                 -- closed flag set by conn.close
 
 /-- the blocking operations of the library (their pinned event sequences) -/
@@ -44,6 +46,8 @@ set_option maxRecDepth 100000 in
 /-- every blocked operation selects on something that close() fires; close() fires all of them -/
 theorem close_wakes_every_waiter :
     (∀ op ∈ blockingOps, ∃ e ∈ op.2, e ∈ firedByClose) ∧
+    "call ch.ReceiveWait()" ∈ PinnedMpx.ev_channel_Receive ∧
+    "call s.recvQueue.ReadWait()" ∈ PinnedMpx.ev_channel_ReceiveWait ∧
     "call c.ctx.Cancel()" ∈ PinnedMpx.ev_conn_close ∧ "call c.closed.Set()" ∈ PinnedMpx.ev_conn_close ∧
     "call c.writeq.Close()" ∈ PinnedMpx.ev_conn_close ∧ "call c.closeChannels()" ∈ PinnedMpx.ev_conn_close ∧
     "call ch.free()" ∈ PinnedMpx.ev_conn_closeChannels ∧ "call s.close()" ∈ PinnedMpx.ev_channel_free ∧
